@@ -56,7 +56,10 @@ def deviate(rng, cols):
         if cands:
             j, subs = rng.choice(cands)
             c = cols[j]
-            cols[j] = {"cls": rng.choice(subs), "key": c["key"], "value": rng.choice([{"t": "none"}, c["value"]]), "index": c["index"]}
+            # ... holding its null value, the same value, or a text that would break the line framing
+            cols[j] = {"cls": rng.choice(subs), "key": c["key"], "index": c["index"],
+                       "value": rng.choice([{"t": "none"}, c["value"], c["value"], {"t": "str", "v": "a\tb"}, {"t": "str", "v": "a\nb"}, {"t": "str", "v": "a\rb"},
+                                            {"t": "str", "v": "x"}, {"t": "list", "v": [{"t": "str", "v": "x\ty"}]}])}
         return {"cols": cols, "mut": []}, kind
     if kind == "value":
         cols[k]["value"] = rng.choice(ODD_VALUES)
@@ -473,6 +476,38 @@ MORE_VALUES = [
 ]
 
 
+def subclass_framing_cases(ctx, out):
+    """Every column of the basic layout that has proper sub-classes in the library, rebuilt as an object of each sub-class
+    holding a text with TAB / LF / CR (and an ordinary text): a sub-class object satisfies isinstance, so only the value
+    and framing checks stand between it and the output."""
+    import maflib.column_types as CT
+    rng = ctx.rng("c06-subclass")
+    sch = impl.scheme_by_annotation(ANN)
+    base, _text = conforming_cols(rng, ANN)
+    reqs, meta = [], []
+    for j, c in enumerate(base):
+        bcls = sch.column_class(c["key"])
+        subs = sorted(n for n, o in vars(CT).items() if isinstance(o, type) and issubclass(o, bcls) and o is not bcls and not n.startswith("_"))
+        for sub in subs:
+            for v in ({"t": "str", "v": "a\tb"}, {"t": "str", "v": "a\nb"}, {"t": "str", "v": "a\rb"}, {"t": "str", "v": "ok"}):
+                cols = [dict(x) for x in base]
+                cols[j] = {"cls": sub, "key": c["key"], "value": v, "index": c["index"]}
+                for sort in (False, True):
+                    reqs.append(make_request(sort, [{"cols": cols, "mut": []}], ANN))
+                    meta.append((sort, sub, c["key"], v))
+    mo = ctx.driver.run(reqs)
+    for r, m, (sort, sub, key, v) in zip(reqs, mo, meta):
+        out.evaluations += 1
+        i, fails, steps = eval_session(r, ["subclass"], sort)
+        out.failures += fails
+        out.distribution["subclass-framing:" + ("refused" if steps and steps[0][2] else "accepted")] += 1
+        out.nontrivial.add(("subclass-framing", sub, key, v["v"], sort))
+        if has_unmodelled(m):
+            out.unmodelled += 1
+        elif m != i:
+            out.disagreements.append(model_differs(r, ["subclass"], sort, m, i))
+
+
 def scheme_value_cases(ctx, out):
     """Every column class of every built-in layout (one representative column per distinct MRO) x every kind of API value,
     type-appropriate or not: a conforming record with that one column rebuilt as `scheme_class(name, value, index)` is
@@ -556,6 +591,7 @@ def run(ctx):
             out.sample({"sorting": sort, "deviations": kinds, "excs": [s["exc"] for s in i["steps"]]})
     history_cases(ctx, out)
     scheme_value_cases(ctx, out)
+    subclass_framing_cases(ctx, out)
     # the translated hook bodies, interpreted, against the real methods (validates the PyIR interpreter and the translator)
     from .. import bodycases
     bodycases.hook_cases(ctx, out)
